@@ -30,13 +30,14 @@ class Return(Exception):
 
 
 class MethodInterp:
-    def __init__(self, repo, cls, path, state, skip_calls=(), true_calls=()):
+    def __init__(self, repo, cls, path, state, skip_calls=(), true_calls=(), call_values=None):
         self.repo = repo
         self.cls = cls
         self.path = path
         self.s = dict(state)
         self.skip = set(skip_calls)       # method names treated as no-ops
         self.true_calls = set(true_calls)  # method names that return True
+        self.call_values = dict(call_values or {})   # method name -> value it returns (not interpreted)
         self.depth = 0
 
     # ---- expressions
@@ -59,6 +60,8 @@ class MethodInterp:
                 m = d[5:]
                 if m in self.true_calls:
                     return True
+                if m in self.call_values:
+                    return self.call_values[m]
                 if m in self.skip:
                     return None
         if isinstance(n, ast.Subscript):
